@@ -6,8 +6,9 @@ Read on every run (rules: harness/exprtrans.py, classes FnOpt / BoolFn, plus the
   None-tests on their statistics, with `compare_to_auto` and `+` on value arrays abstract;
 * `compare_sex_chromosomes`: the shift arguments of the chrX and chrY calls of `compare_chrom`, how the two ratios are
   combined into the score and the comparison that is returned.  Shape reading: the score is the name compared in the
-  first element of the returned tuple; it is initialised from the chrX call and updated by an augmented assignment
-  under `if len(<chrY bins>):` (a `np.isfinite` guard around the update is read as true: model values are finite).
+  first element of the returned tuple; it is initialised from the chrX call and updated ONCE under
+  `if len(<chrY bins>):` -- `score *= y`, `score = score * y` or `score = y * score`, in the branch where an
+  `np.isfinite` guard is true (the guard itself is read as true: model values are finite; see `_score_update`).
 Props/C15Src.lean proves the hand-written model equal to these definitions.
 """
 import ast
@@ -131,6 +132,67 @@ def _const_or_flagexpr(e, fn_body, flags):
     raise Untranslatable("shift argument " + ast.unparse(e))
 
 
+def _score_update(csc, score):
+    """The one update of the score under `if len(<chrY bins>):` -> (statement, operator, operand).
+    Reading rule (round 5b): `score <op>= y`, `score = score <op> y` and, for the commutative `*` / `+`,
+    `score = y <op> score` are the same update.  It may stand under a guard `np.isfinite(..)` in the branch where the
+    guard is TRUE (`if isfinite(..): upd`, `if not isfinite(..): pass / else: upd`); an update in the branch where the
+    guard is false, in the `else` of the `len` test, or under any other nested condition is not read (Untranslatable)."""
+    def as_update(n):
+        if isinstance(n, ast.AugAssign) and isinstance(n.target, ast.Name) and n.target.id == score:
+            return n, n.op, n.value
+        if isinstance(n, ast.Assign) and len(n.targets) == 1 and isinstance(n.targets[0], ast.Name) \
+                and n.targets[0].id == score and isinstance(n.value, ast.BinOp):
+            b = n.value
+            if isinstance(b.left, ast.Name) and b.left.id == score:
+                return n, b.op, b.right
+            if isinstance(b.right, ast.Name) and b.right.id == score and isinstance(b.op, (ast.Mult, ast.Add)):
+                return n, b.op, b.left
+            raise Untranslatable("score reassigned by an expression that is not `score <op> ratio`: " + ast.unparse(n))
+        return None
+
+    def stores(stmts):
+        return any(as_update(m) is not None for b in stmts for m in ast.walk(b)
+                   if isinstance(m, (ast.Assign, ast.AugAssign)))
+
+    def finite_guard(t):
+        """+1: `isfinite(..)`, -1: `not isfinite(..)`, 0: something else"""
+        if isinstance(t, ast.UnaryOp) and isinstance(t.op, ast.Not):
+            return -finite_guard(t.operand)
+        if isinstance(t, ast.Call) and ast.unparse(t.func).split(".")[-1] == "isfinite":
+            return 1
+        return 0
+
+    found = []
+
+    def scan(stmts):
+        for st in stmts:
+            u = as_update(st) if isinstance(st, (ast.Assign, ast.AugAssign)) else None
+            if u is not None:
+                found.append(u)
+            elif isinstance(st, ast.If):
+                g = finite_guard(st.test)
+                yes, no = (st.body, st.orelse) if g > 0 else (st.orelse, st.body)
+                if g == 0:
+                    if stores(st.body) or stores(st.orelse):
+                        raise Untranslatable("score updated under a condition that is not np.isfinite: " + ast.unparse(st.test))
+                    continue
+                if stores(no):
+                    raise Untranslatable("score updated when the chrY ratio is NOT finite")
+                scan(yes)
+            elif stores([st]):
+                raise Untranslatable("score updated inside " + type(st).__name__)
+
+    for s in csc.body:
+        if isinstance(s, ast.If) and isinstance(s.test, ast.Call) and ast.unparse(s.test.func) == "len":
+            if stores(s.orelse):
+                raise Untranslatable("score also updated when chrY has no bins")
+            scan(s.body)
+    if len(found) != 1:
+        return None, None, None
+    return found[0]
+
+
 def _score(o, csc, shift_pos):
     """src_x_shifts / src_y_shifts / src_combined_score / src_is_male from compare_sex_chromosomes"""
     names = ("src_x_shifts", "src_y_shifts", "src_combined_score", "src_is_male")
@@ -154,20 +216,12 @@ def _score(o, csc, shift_pos):
         if len(init) != 1 or not isinstance(init[0].value, ast.Name) or init[0].value.id not in calls:
             raise Untranslatable("score is not initialised from one compare_chrom result")
         xname = init[0].value.id
-        upd = None
-        for s in csc.body:
-            if isinstance(s, ast.If) and isinstance(s.test, ast.Call) and ast.unparse(s.test.func) == "len":
-                for n in ast.walk(s):
-                    if isinstance(n, ast.AugAssign) and isinstance(n.target, ast.Name) and n.target.id == score:
-                        if any(isinstance(m, ast.AugAssign) and isinstance(m.target, ast.Name) and m.target.id == score
-                               for b in s.orelse for m in ast.walk(b)):
-                            raise Untranslatable("score also updated when chrY has no bins")
-                        upd = n
+        upd, upd_op, upd_val = _score_update(csc, score)
         nstores = sum(1 for n in ast.walk(csc) if isinstance(n, ast.Name) and n.id == score and isinstance(n.ctx, ast.Store))
-        if upd is None or nstores != 2 or not isinstance(upd.value, ast.Name) or upd.value.id not in calls:
+        if upd is None or nstores != 2 or not isinstance(upd_val, ast.Name) or upd_val.id not in calls:
             raise Untranslatable("score update by the chrY ratio not found (or further assignments to the score)")
-        yname = upd.value.id
-        op = {ast.Mult: "*", ast.Add: "+", ast.Sub: "-", ast.Div: "/"}.get(type(upd.op))
+        yname = upd_val.id
+        op = {ast.Mult: "*", ast.Add: "+", ast.Sub: "-", ast.Div: "/"}.get(type(upd_op))
         if op is None:
             raise Untranslatable("score update operator")
         flags = []
